@@ -180,11 +180,32 @@ NEEDS = {
              "lexicographic order (unpadded part numbers >= 10, descending names, several directories)",
     "C20-d": "the reader falls back to max-rss.txt.tmp when max-rss.txt does not exist yet: needs a read during the "
              "monitor's very first update, between open('w') of the staging file and its flush",
+    "C01-e": "_prepare_bf_to_buffer_dicts groups runs of equal dtype with groupby and overwrites (the mechanism of "
+             "C09-c, found independently for C01): needs recluster_inplace(shuffle=True) with a cluster of >= 256 "
+             "members among smaller ones; labels vanish and num_fitted_fps drops with them",
+    "C05-e": "centroid_from_sum compares with (n + 1) // 2, n being a NumPy scalar of the buffer's dtype when a "
+             "cluster is rebuilt from a buffer file: needs a cluster of EXACTLY 255 (or 65535) members that reaches "
+             "the final round unmerged (its saved centroid is all ones)",
+    "C06-e": "lru_cache on get_merge_accept_fn plus set_merge updating the tolerance of the current object in place: "
+             "needs initial == midsection criterion of the tolerance family, tolerance != 0.05, 'full' refinement and "
+             "two round-1 tasks in one process (serial differs from one task per process)",
+    "C08-e": "the singletons refinement breaks off inherit the dtype of the cluster they came from: needs a largest "
+             "cluster of >= 256 members, refine_inplace, and a broken-off row that stays alone (a 1-member entry "
+             "with uint16 counters)",
+    "C11-e": "jt_isim short-cuts two packed uint8 rows through jt_sim_packed, whose 0/0 is 0: needs exactly two "
+             "packed rows, both empty, through the public dispatcher",
+    "C12-e": "jt_sim_matrix_packed stores intersections in min_safe_uint(width in BYTES): needs rows of < 256 bytes "
+             "sharing >= 256 bits",
+    "C16-e": "the .npy header reader is memoised per path: needs a path that is indexed / described, rewritten with "
+             "another row count in the same process, and indexed again",
+    "C18-e": "unpacked_centroid recomputed as 2*sum >= n on the minimal-width buffer: needs a cluster of 128..255 "
+             "members with a bit set in >= 128 of them, seen through transform / predict / subcluster_centers_",
 }
 EXTRA = {"C17-a": ["C10"], "C12-a": ["C07"], "C02-a": ["C12"], "C14-b": ["C05"], "C03-b": ["C07"], "C07-b": ["C03"],
          "C05-c": ["C09"], "C02-c": ["C08"], "C09-d": ["C18"], "C03-d": ["C02", "C05"],
          "C04-d": ["C17"], "C11-d": ["C19"], "C07-d": ["C02", "C12", "C08"], "C02-d": ["C03"],
-         "C10-d": ["C11"]}
+         "C10-d": ["C11"], "C05-e": ["C02"], "C18-e": ["C02"], "C01-e": ["C09"], "C06-e": ["C17", "C04"],
+         "C08-e": ["C02"]}
 
 
 def sh(cmd, **kw):
